@@ -148,6 +148,53 @@ pub fn cases(tier: Tier) -> Vec<Case> {
     calls.push(("g(1, 2, 3)".into(), Expect::MustError));
     out.push(Case { family: "fn-2arg", def, calls, locus: format!("fn2:{}", sel.iter().map(|i| ["lit-wild", "wild-lit", "repeat", "vars", "wilds", "vars-swapped", "bare-wild"][*i]).collect::<Vec<_>>().join(",")) });
   }
+  // (B2) the same two-field arms on a function of ONE parameter that is a tuple: the argument list is one value, matched as a tuple
+  for sel in ordered_selections(p2.len(), 2) {
+    let arms: Vec<Arm> = sel.iter().map(|i| p2[*i].clone()).collect();
+    let def = format!("gt(t<(f64,f64)>) => <f64>\n{}", glyphs(&arms.iter().map(|a| a.text).collect::<Vec<_>>()));
+    let mut calls = vec![];
+    for (k, (x, y)) in [(0i64, 0i64), (0, 1), (1, 0), (2, 2), (1, 2)].iter().enumerate() {
+      let r = reference2(&arms, *x, *y);
+      let e = match r { Some(v) => Expect::Val(f64s(v)), None => Expect::MustError };
+      calls.push((format!("gt(({}, {}))", x, y), match r { Some(v) => Expect::Val(f64s(v)), None => Expect::MustError }));
+      calls.push((format!("tp{k} := ({x}, {y})\nr@ := gt(tp{k})", k = k, x = x, y = y), e));
+    }
+    out.push(Case { family: "fn-tuple-arg", def, calls, locus: format!("fn-tuple-arg:{}", sel.iter().map(|i| ["lit-wild", "wild-lit", "repeat", "vars", "wilds", "vars-swapped", "bare-wild"][*i]).collect::<Vec<_>>().join(",")) });
+  }
+  // (B3) bodies and guards that read a pattern-bound name through a subscript, with globals of the same names holding other values; as a
+  // match expression and as a function whose pattern re-binds the name of its own parameter
+  {
+    struct SA { text: &'static str, name: &'static str, f: fn(&[i64]) -> Option<i64> }
+    let pool: Vec<SA> = vec![
+      SA { text: "[h | t] => t[1]", name: "tail-index", f: |v| if v.len() >= 2 { Some(v[1]) } else { None } },
+      SA { text: "[h | t], t[1] > 15 => 1000 + h", name: "guard-tail-index", f: |v| if v.len() >= 2 && v[1] > 15 { Some(1000 + v[0]) } else { None } },
+      SA { text: "[a, b | t] => t[1] + a", name: "two-heads-tail-index", f: |v| if v.len() >= 3 { Some(v[2] + v[0]) } else { None } },
+      SA { text: "[h | t] => t[2] * 2", name: "tail-second", f: |v| if v.len() >= 3 { Some(v[2] * 2) } else { None } },
+      SA { text: "* => 0", name: "wild", f: |_| Some(0) },
+    ];
+    let subjects: [&[i64]; 4] = [&[10, 20, 30], &[10, 5, 30], &[7, 16, 2, 40], &[3, 18, 9]];
+    for sel in ordered_selections(pool.len(), 3) {
+      if !sel.contains(&4) || sel.len() < 2 { continue; }
+      let body = sel.iter().map(|i| format!("  | {}", pool[*i].text)).collect::<Vec<_>>().join("\n");
+      let mut calls = vec![];
+      for (k, sub) in subjects.iter().enumerate() {
+        let first = sel.iter().find_map(|i| (pool[*i].f)(sub));
+        let e = match first { Some(v) => Expect::Val(f64s(v)), None => Expect::MustError };
+        calls.push((format!("vs{k} := [{vals}]\nr@ := vs{k}?\n{body}.", k = k, vals = sub.iter().map(|x| x.to_string()).collect::<Vec<_>>().join(" "), body = body), e));
+      }
+      out.push(Case { family: "match-subscripted-binding", def: "t := [1 2 3 4]\nh := 99\na := 98\nb := 97".into(), calls, locus: format!("match-subscripted-binding:{}", sel.iter().map(|i| pool[*i].name).collect::<Vec<_>>().join(",")) });
+      // function form: the tail is bound to the name of the function's own parameter
+      let ftexts: Vec<String> = sel.iter().map(|i| pool[*i].text.replace("| t]", "| xs]").replace("t[", "xs[")).collect();
+      let fbody = glyphs(&ftexts.iter().map(|t| t.as_str()).collect::<Vec<_>>());
+      let mut calls = vec![];
+      for sub in subjects.iter() {
+        let first = sel.iter().find_map(|i| (pool[*i].f)(sub));
+        let e = match first { Some(v) => Expect::Val(f64s(v)), None => Expect::MustError };
+        calls.push((format!("sv([{}])", sub.iter().map(|x| x.to_string()).collect::<Vec<_>>().join(" ")), e));
+      }
+      out.push(Case { family: "fn-subscripted-binding", def: format!("sv(xs<[f64]>) => <f64>\n{}", fbody), calls, locus: format!("fn-subscripted-binding:{}", sel.iter().map(|i| pool[*i].name).collect::<Vec<_>>().join(",")) });
+    }
+  }
   // (C) match with guards on a scalar subject
   let p3 = vec![
     Arm { text: "| 0 => 10", pat: Pat::Lit(0), guard: Guard::None, body: Body::Const(10) },
